@@ -229,7 +229,7 @@ def rule_gate_shape(ctx, px):
                     n_chmod += 1
                     ctx.ob(R, f.module.rel, f"{f.short} :: {what} on path [{desc}]", allow,
                            "" if allow else "mode of an existing file is changed although overwriting is not allowed", c.lineno)
-                    mode = c.args[0] if c.args else None
+                    mode = pyfront.subst_locals(f.node, c.args[0]) if c.args else None
                     okm = False
                     if isinstance(mode, ast.BinOp) and isinstance(mode.op, ast.BitOr):
                         def _or_operands(e):   # a | b | c
@@ -274,6 +274,10 @@ def rule_gate_shape(ctx, px):
             if val is None and "allow_overwrite" in names and names.index("allow_overwrite") < len(c.args):
                 val = c.args[names.index("allow_overwrite")]
             if val is None:
+                # not passed at all: the callee's default decides, whatever the caller was told
+                ctx.ob(R, g.module.rel, f"{g.short} -> {h.short}(allow_overwrite=<omitted>)", False,
+                       "allow_overwrite is not forwarded: the callee falls back to its default, so a run with --no-overwrite rewrites (or a permissive run refuses) "
+                       "the files written through this call", c.lineno)
                 continue
             txt = ast.unparse(val)
             ok = txt == "allow_overwrite"
